@@ -32,6 +32,7 @@ SIG_F20 = ("C10:F20 DataSaver.tell of a known point overwrites extra_data althou
            "(extra_data no longer belongs to data)")
 SIG_F22 = ("C10:F22 AverageLearner1D.ask hands out an already told (seed, x) after samples with non-consecutive seeds and "
            "marks it pending (told point in pending_points)")
+SIG_F25 = "C10:F25 AverageLearner1D keeps offering (seed, bound) while that sample is only pending"
 SIG_F24 = ("C10:F24 LearnerND without a triangulation hands out a random point that is already told (not checked against data; its "
            "private RNG is rolled back by ask(tell_pending=False)) and marks it pending")
 SIG_F2 = ("C10:F2 BalancingLearner.remove_unfinished does not invalidate the loss caches (C15:F2): loss(real=False) != "
@@ -63,6 +64,7 @@ class Oracle:
         self.errors = []        # (signature, message)
         self.stop = False
         self.rehanded = set()   # told keys that a committing ask handed out again
+        self.open_bounds = set()
         self.no_tri_leaf = False  # before the last ask: some LearnerND leaf had no triangulation (F24's precondition)
 
     def err(self, signature, msg):
@@ -90,10 +92,12 @@ class Oracle:
         """ask returns distinct points."""
         ks = [self.ad.key(self.ad.point(p)) for p in out[1]]
         dup = [k for i, k in enumerate(ks) if k in ks[:i]]
-        if not dup or G.base_kind(self.spec) == "Avg1D":
-            # AverageLearner1D keeps offering (seed 0, bound) while that sample is only pending (its _missing_bounds looks for
-            # the bare abscissa among (seed, x) tuples); a BalancingLearner then repeats it inside one ask.  Not a listed
-            # finding: reported in the builder's notes, not decided here.
+        if not dup:
+            return
+        if G.base_kind(self.spec) == "Avg1D" and all(self._is_unevaluated_bound(k) for k in dup):
+            self.err(SIG_F25, f"{G.spec_name(self.spec)}: {G.short(op)} returned {G.short(dup[0])} {ks.count(dup[0])} times: a bound whose "
+                              f"sample is only pending is offered again (_missing_bounds looks for the bare abscissa among (seed, x) tuples)")
+            self.stop = True
             return
         name = G.spec_name(self.spec)
         if G.base_kind(self.spec) == "LND" and self.no_tri_leaf:
@@ -102,6 +106,22 @@ class Oracle:
             self.stop = True
             return
         self.err(sig(self.spec, "ask-distinct"), f"{name}: {G.short(op)} returned the point {G.short(dup[0])} {ks.count(dup[0])} times")
+
+    def _is_unevaluated_bound(self, k):
+        if self.spec["kind"] == "Bal":
+            return (k[1], k[2][2]) in self.open_bounds
+        return (None, k[2]) in self.open_bounds
+
+    def note_open_bounds(self, l):
+        """Before an ask: the bounds of every AverageLearner1D leaf that have no evaluated sample yet."""
+        self.open_bounds = set()
+        if G.base_kind(self.spec) != "Avg1D":
+            return
+        kids = list(enumerate(l.learners)) if self.spec["kind"] == "Bal" else [(None, l.learner if self.spec["kind"] == "DS" else l)]
+        for i, c in kids:
+            for b in c.bounds:
+                if b not in c.data:
+                    self.open_bounds.add((i, G.canon(float(b))))
 
     def note_tell_pending(self, p):
         k = self.ad.key(self.ad.point(p))
@@ -280,6 +300,7 @@ def run_case(args):
             if ad.key(ad.point(G.plain(p))) in {ad.key(ad.point(q)) for q in ([op[1]] if op[0] == "tell" else op[1])})
         if op[0] == "ask":
             orc.no_tri_leaf = any(a.spec["kind"] == "LND" and b.tri is None for a, b in c09.leaves(ad, l))
+            orc.note_open_bounds(l)
         out = G.apply_op(ad, l, op)
         H.append(op)
         if G.is_exc(out):
@@ -348,6 +369,7 @@ def replay_case(spec, ops):
         known_before = {ad.key(ad.point(p)) for p in G.known_points(ad, l)} if op[0] in ("tell", "tell_many") else set()
         if op[0] == "ask":
             orc.no_tri_leaf = any(a.spec["kind"] == "LND" and b.tri is None for a, b in c09.leaves(ad, l))
+            orc.note_open_bounds(l)
         out = G.apply_op(ad, l, op)
         if G.is_exc(out):
             if op[0] == "ask":
